@@ -1725,6 +1725,103 @@ def _inline_hoisted(fn, rf, log, q):
     ast.fix_missing_locations(fn)
 
 
+def _sink_selected_callee(fn, rf, log, q):
+    """A callee chosen by a condition and called once in the next statement
+
+        if c: f = A          (or  f = A if c else B)
+        else: f = B
+        S[f(args)]
+
+    ->  if c: S[A(args)] else: S[B(args)].  Side conditions: f is a local
+    the reference does not have, bound only by these assignments and read
+    only as the callee of that one call; A and B are pure look-ups
+    (attribute chains: a bound-method look-up has no effect); S is a simple
+    statement in which nothing is called outside the arguments of f(...), so
+    no effect lies between the old and the new place of the look-up; the
+    reference calls both A and B directly (towards the recorded form only)."""
+    ref_locs = set(rf.get('locals', [])) | set(rf.get('params', []))
+    ref_calls = rf.get('calls', {})
+
+    def called_in_ref(e):
+        t = _n(e) + '('
+        return any(k.startswith(t) for k in ref_calls)
+
+    for _ in range(10):
+        done = False
+        for blk in _blocks(fn):
+            for i in range(len(blk) - 1):
+                st, use = blk[i], blk[i + 1]
+                sel = None
+                if isinstance(st, ast.If) and len(st.body) == 1 and \
+                        len(st.orelse) == 1 and all(
+                            isinstance(b, ast.Assign) and len(b.targets) == 1
+                            and isinstance(b.targets[0], ast.Name)
+                            for b in (st.body[0], st.orelse[0])) and \
+                        st.body[0].targets[0].id == \
+                        st.orelse[0].targets[0].id:
+                    sel = (st.body[0].targets[0].id, st.test,
+                           st.body[0].value, st.orelse[0].value)
+                elif isinstance(st, ast.Assign) and len(st.targets) == 1 \
+                        and isinstance(st.targets[0], ast.Name) and \
+                        isinstance(st.value, ast.IfExp):
+                    sel = (st.targets[0].id, st.value.test, st.value.body,
+                           st.value.orelse)
+                if sel is None:
+                    continue
+                name, test, a_, b_ = sel
+                params, _locs = local_order(fn)
+                if name in ref_locs or name in params:
+                    continue
+                if not all(isinstance(e, ast.Attribute) and _pure_lookup(e)
+                           and called_in_ref(e) for e in (a_, b_)):
+                    continue
+                if name in _names(test):
+                    continue
+                if not isinstance(use, (ast.Assign, ast.AugAssign, ast.Expr,
+                                        ast.Return)):
+                    continue
+                occ = [x for x in _own_nodes(fn) if isinstance(x, ast.Name)
+                       and x.id == name]
+                n_st = 2 if isinstance(st, ast.If) else 1
+                stores = [x for x in occ if not isinstance(x.ctx, ast.Load)]
+                loads = [x for x in occ if isinstance(x.ctx, ast.Load)]
+                if len(stores) != n_st or len(loads) != 1:
+                    continue
+                if any(isinstance(x, (ast.FunctionDef, ast.AsyncFunctionDef,
+                                      ast.Lambda, ast.ClassDef)) and
+                       name in _names(x) for x in ast.walk(fn) if x is not fn):
+                    continue        # captured by a nested scope
+                calls = [x for x in ast.walk(use) if isinstance(x, ast.Call)]
+                mine = [c for c in calls if c.func is loads[0]]
+                if len(mine) != 1:
+                    continue
+                inner = {id(x) for arg in list(mine[0].args) + [
+                    k.value for k in mine[0].keywords] for x in ast.walk(arg)}
+                if any(c is not mine[0] and id(c) not in inner
+                       for c in calls):
+                    continue
+                if any(isinstance(x, (ast.Lambda, ast.ListComp, ast.SetComp,
+                                      ast.DictComp, ast.GeneratorExp,
+                                      ast.NamedExpr, ast.Await, ast.Yield,
+                                      ast.YieldFrom))
+                       for x in ast.walk(use)):
+                    continue
+                s_a = _Subst({name: a_}).visit(copy.deepcopy(use))
+                s_b = _Subst({name: b_}).visit(copy.deepcopy(use))
+                new = ast.copy_location(ast.If(
+                    test=test, body=[s_a], orelse=[s_b]), st)
+                blk[i:i + 2] = [new]
+                log.append('%s: callee selected into %s pushed into the '
+                           'branches of `%s`' % (q, name, _n(test)))
+                done = True
+                break
+            if done:
+                break
+        if not done:
+            break
+    ast.fix_missing_locations(fn)
+
+
 def _inline_indexed_comprehensions(fn, rf, log, q):
     """X = [E(v) for v in range(N)] used only as X[i]  ->  E(i)."""
     ref_locs = set(rf.get('locals', []))
@@ -2263,6 +2360,7 @@ def canonicalise(tree, modname, text=None):
         if not helpers_inlined and describe(fn) == rf:
             continue            # unchanged forms: nothing to rewrite
         n0 = len(log)
+        _sink_selected_callee(fn, rf, log, q)
         _inline_hoisted(fn, rf, log, q)
         _restore_bool_returns(fn, rf, log, q)
         _dictcomps_to_loops(fn, rf, log, q)
